@@ -12,7 +12,7 @@ NAMES = ["1", "2", "7", "42", "007", "np-x", "１２"]
 MOODS = ["happy", "lonely", "scary", "errory", "weirdé", None, "ABSENT"]
 UNICODE = ["", "\u0000x", "nul\u0000", "\U0001F600", "é", "‮RTL", "퟿", "x" * 300,
            "\"quote\\", "a b\tc\n", "￿", "y" * 70000,
-           "e\u0301", "\u212b", "ﬁ", " lead", "trail ", "MiXeD", "ß", "İ", "0", "00", "-1", "1e3", "null", "true"]
+           "e\u0301", "\u212b", "ﬁ", " lead", "trail ", "MiXeD", "ß", "İ", "0", "00", "-1", "1e3", "null", "true", "²", "①", "٣", "Ⅷ"]
 
 BASE = {
     "napps": (1, 3), "nsides": (2, 4), "steps": (8, 40),
@@ -134,6 +134,7 @@ class Gen(object):
         self.unicode = r.random() < p["unicode_p"]
         self.quiesce = r.random() < p["quiesce_p"]
         self.conns = {}
+        self.last_add_by_side = {}
         self.next_cid = 0
         self.counter = 0
         self.queue = []
@@ -269,6 +270,13 @@ class Gen(object):
     def a_add(self, c):
         m = {"type": "add", "phase": self.s(self.rng.choice(["pake", "version", "0", "1"])),
              "body": self.s(self.uniq("b"))}
+        prev = getattr(c, "last_add", None) or self.last_add_by_side.get((c.app, c.side))
+        if prev is not None and self.rng.random() < 0.12:
+            # a client that is not sure its message arrived sends it again (adds are not
+            # idempotent: both copies must be stored, delivered and replayed)
+            m["phase"], m["body"] = prev
+        c.last_add = (m["phase"], m["body"])
+        self.last_add_by_side[(c.app, c.side)] = c.last_add
         if self.rng.random() < 0.7:
             m["id"] = self.uniq("m")
         if self.rng.random() < 0.08:
@@ -701,4 +709,7 @@ class Gen(object):
             for _ in range(r.randint(1, 4)):
                 if len(names) > 1:
                     names.pop(r.randrange(len(names)))
+        if r.random() < 0.4:
+            # names outside 1..999 are in use as well (an earlier overflow allocation, words)
+            names += r.sample(["1000", "4711", "123456", "word", "0", "007", "x-1", "9999999"], r.randint(1, 6))
         return [{"op": "bulk", "app": app, "side": "filler", "names": names}]
